@@ -108,7 +108,7 @@ def build_color_doc(spec, shared=None):
             headers.append([None])
     page = rtf.RTFPage(nrow=spec.get("nrow", 40), **({"page_footnote": spec["page_footnote"]} if spec.get("page_footnote") else {}))
     if path == "single":
-        hk = {"rtf_column_header": headers[0] if "header" in comp else []}
+        hk = {} if spec.get("default_header") else {"rtf_column_header": headers[0] if "header" in comp else []}
         return rtf.RTFDocument(df=dfs[0], rtf_body=bodies[0], rtf_page=page, **hk, **kw)
     return rtf.RTFDocument(df=dfs, rtf_body=bodies, rtf_page=page, rtf_column_header=headers, **kw)
 
@@ -221,6 +221,8 @@ POOL = {
     "share3": dict(path="single", sections=[dict(n=2, m=3)], comp={}),
     # paginated, table footnote on every page, no body closing border: a page without its own border override
     "pagedfn": dict(path="single", sections=[dict(n=5, m=2)], comp={"footnote": ["", "", 0]}, nrow=4, page_footnote="all", body_border_last=""),
+    # paginated with the default (auto-populated) column header
+    "pagedhdr": dict(path="single", sections=[dict(n=9, m=2)], comp={}, nrow=4, default_header=True),
     "paged": dict(path="single", sections=[dict(n=4, m=1, text=[["blue"], ["red"]])], comp={"title": ["", "", 0], "footnote": ["", "", 0]}, nrow=3),
 }
 
